@@ -8,7 +8,7 @@ def _hook_commits():
     except Exception:
         return []
 
-CLAIMED_IDS = ['C01', 'C02', 'C03', 'C04', 'C07', 'C08', 'C10', 'C12', 'C15', 'C16']
+CLAIMED_IDS = ['C01', 'C02', 'C03', 'C04', 'C05', 'C06', 'C07', 'C08', 'C09', 'C10', 'C12', 'C15', 'C16']
 
 HOOKS = {
     'guard': 'cargo feature `verif` (cfg(feature = "verif"))',
@@ -57,13 +57,22 @@ CLAIMED = {
     'C04': {'engine': 'engine-b-mirse', 'design_ref': 'DESIGN.md section 4 C04',
             'text': 'k-way merge layer only: MergingIterator (with CachingIterator inlined) equals the cursor over the merged sorted array for every interleaving of <= 4 entries in <= 3 children and every cursor pattern of length <= 4 incl. all direction reversals and seeks (O4.1)',
             'note': B_NOTE + '; the collapse of internal entries to user-visible ones (DatabaseIterator) and block/table level iterators are not covered by this check', 'technique': TECH},
+    'C05': {'engine': 'engine-b-mirse', 'design_ref': 'DESIGN.md section 4 C05',
+            'text': 'sequential mechanism only: on every path of DB::get and DB::new_iterator the memtable pointer, the immutable memtable, the current version and the visible sequence are read while the database mutex is held (O5.1); a write publishes its sequence under the mutex after the memtable insert (O6.1)',
+            'note': B_NOTE + '; this checks the documented capture-under-mutex mechanism, NOT linearizability: thread interleavings are not explored; a violation is replayed with a forced schedule through cfg(verif) scheduling points', 'technique': TECH + '; lock-state monitor over MIR paths'},
+    'C06': {'engine': 'engine-b-mirse', 'design_ref': 'DESIGN.md section 4 C06',
+            'text': 'sequential mechanism only: in DB::apply_changes the batch starts at prev+1, the WAL append precedes the memtable insert, and prev+len is published with the mutex held and only after the unlocked WAL+memtable section has returned (O6.1), for all prev / batch lengths',
+            'note': B_NOTE + '; reader interleavings are not explored; group commits of several writers are outside the bound (single writer at the head of the queue)', 'technique': TECH + '; event-order monitor over MIR paths'},
+    'C09': {'engine': 'engine-b-mirse', 'design_ref': 'DESIGN.md section 4 C09',
+            'text': 'self-deadlock freedom only: on no path of get_descriptor (all three descriptors), get_snapshot, release_snapshot, compact_range (incl. the forced memtable / level compaction helpers), get, new_iterator is the non-reentrant database mutex locked while that path already holds it (O9.1)',
+            'note': B_NOTE + '; data-insensitive exploration (paths are merged by lock state per call context); queue hand-off, condition-variable liveness and every other interleaving-dependent hang are outside the claim', 'technique': TECH + '; lock-state monitor over MIR paths, native watchdog replay'},
     'C07': {'engine': 'engine-b-mirse', 'design_ref': 'DESIGN.md section 4 C07',
             'text': 'solver-decided obligations on compaction input selection: hull of several files (O7.1, known finding D4), overlapping inputs incl. level-0 range expansion and its termination (O7.2), boundary files (O7.3), overlap test (O7.4a), base-level test for tombstones (O7.4b), memtable output level (O7.4c)',
             'note': B_NOTE, 'technique': 'symbolic execution of rustc MIR + z3 (SMT), cvc5 cross-check, native replay of counterexamples'},
 }
 
 _NOT_YET = 'obligations for this property are designed (DESIGN.md section 4) but not yet registered in this commit'
-NOT_APPLICABLE = {pid: _NOT_YET for pid in ['C05', 'C06', 'C09', 'C11', 'C13', 'C14']}
+NOT_APPLICABLE = {pid: _NOT_YET for pid in ['C11', 'C13', 'C14']}
 NOT_APPLICABLE['C17'] = 'the mechanism is flock(2) through the fs2 FFI on a real file descriptor plus racing threads; neither engine has a model of flock or of threads, and a contract "lock_file returns anything" decides nothing'
 
 NOTES = 'See DESIGN.md. Exit codes of ./check: 0 held (KNOWN-FINDING lines for recorded defects), 1 VIOLATION, 2 inconclusive (tool limit or non-reproducing counterexample; never reported as held).'
